@@ -35,6 +35,9 @@ BANNERS = [
     ("foreign-versioned", "Acme Motion Controller Firmware Version 4.1.0"),
     # ... and one whose name merely *contains* the three letters, in another capitalisation
     ("foreign-pebble", "Pebble Firmware Version 4.3.0"),
+    # ... or spells them with other bytes in between (a 16-bit encoding, line noise)
+    ("foreign-nul", "E\x00B\x00B Firmware Version 3.0.2"),
+    ("foreign-spaced", "E B B Firmware Version 9.9.9"),
     # a device (or an EBB with a half-typed command in its buffer) that answers with an error line
     ("error-line", "!8 Err: Unknown command 'v'"),
     # a release candidate of the minimum itself: older than the minimum
